@@ -218,6 +218,13 @@ pub fn transfer(c: &Case, rep: &mut Report) -> Result<&'static str, (String, Str
                     }
                 }
                 cur_pref = Some(ask);
+                if c.start == 4 && followups == 1 {
+                    // 300 requests on 300 other keys arrive before the first follow-up (well inside the lifetime)
+                    for j in 0..300u32 {
+                        let p = format!("burst{}", j);
+                        srv.exchange(2 + j % 3, &get(20 + j as u16, &[&p], None), &app);
+                    }
+                }
                 let next_num = (received.len() / rb::size(ask)) as u32;
                 mid += 1;
                 x = srv.exchange(1, &get(mid, &["r"], Some((next_num, false, ask))), &app);
@@ -232,8 +239,12 @@ pub fn transfer(c: &Case, rep: &mut Report) -> Result<&'static str, (String, Str
             format!("reassembled {} bytes, body has {} bytes, first difference at offset {}", received.len(), the_body.len(), at),
         ));
     }
-    if srv.app_calls.len() != calls_before + 1 {
-        return Err(("C08/application-consulted-more-than-once".into(), format!("{} application calls during one transfer", srv.app_calls.len() - calls_before)));
+    let own_calls = srv.app_calls[calls_before..]
+        .iter()
+        .filter(|c| c.ep == 1 && c.request.mid >= 1000 && c.request.options.iter().filter(|o| o.0 == 11).map(|o| &o.1[..]).collect::<Vec<_>>() == [b"r"])
+        .count();
+    if own_calls != 1 {
+        return Err(("C08/application-consulted-more-than-once".into(), format!("{} application calls for one transfer", own_calls)));
     }
     // ---- cache released: a new request with Block2 num 0 reaches the application again
     // start state 3: if the new transfer was served in one message it installed no cache entry of its own, so the
@@ -330,13 +341,13 @@ pub fn run(ctx: &Ctx, rep: &mut Report) {
     {
         let strats = strategies_small();
         let optsets: Vec<usize> = if ctx.thorough() { vec![0, 1, 2, 3] } else { vec![0, 2] };
-        let starts: Vec<u8> = if ctx.thorough() { vec![0, 1, 2, 3] } else { vec![0, 2, 3] };
+        let starts: Vec<u8> = if ctx.thorough() { vec![0, 1, 2, 3, 4] } else { vec![0, 2, 3] };
         let radices = [65u64, 99, strats.len() as u64, optsets.len() as u64, starts.len() as u64];
         let n = product(&radices);
         ctx.family(
             rep,
             "A-every-length-small-blocks",
-            "budget = overhead+28 .. overhead+92 (every value: block sizes 16, 32 and 64 with every slack) x body length 0..=98 (every value) x 9 client strategies (no preference, early SZX 0/1/2/6, reductions at the 1st/2nd follow-up) x application option sets (request type CON/NON and response code 2.05/2.04/4.04 vary with the option set) x start states {fresh, completed transfer on the key, unfinished transfers on other keys, unfinished transfer on the key + start without Block2}; each a complete transfer",
+            "budget = overhead+28 .. overhead+92 (every value: block sizes 16, 32 and 64 with every slack) x body length 0..=98 (every value) x 9 client strategies (no preference, early SZX 0/1/2/6, reductions at the 1st/2nd follow-up) x application option sets (request type CON/NON and response code 2.05/2.04/4.04 vary with the option set) x start states {fresh, completed transfer on the key, unfinished transfers on other keys, unfinished transfer on the key + start without Block2; thorough: 300 requests on other keys between block 0 and block 1}; each a complete transfer",
             n,
             true,
             |i, rep| {
@@ -369,7 +380,7 @@ pub fn run(ctx: &Ctx, rep: &mut Report) {
             }
         }
         let optsets: Vec<usize> = if ctx.thorough() { vec![0, 1, 2, 3] } else { vec![0, 3] };
-        let starts: Vec<u8> = if ctx.thorough() { vec![0, 1, 2, 3] } else { vec![0, 1] };
+        let starts: Vec<u8> = if ctx.thorough() { vec![0, 1, 2, 3, 4] } else { vec![0, 1, 4] };
         if ctx.thorough() {
             bodies.push(70_000); // more than 4096 blocks of 16 bytes: three-byte Block2 values
         }
@@ -393,11 +404,15 @@ pub fn run(ctx: &Ctx, rep: &mut Report) {
                     return;
                 }
                 let (mtype, app_code) = variants[d[5] as usize];
-                if bodies[d[1] as usize] == 70_000 && (budget > ovh + 12 + 34 || d[2] > 8) {
+                if bodies[d[1] as usize] == 70_000 && (budget > ovh + 12 + 34 || d[2] > 8 || d[4] > 0 || d[5] > 1) {
                     rep.count("skipped-70000-byte-body-only-with-16-byte-blocks");
                     return;
                 }
                 let c = Case { budget, body_len: bodies[d[1] as usize], strat: strats[d[2] as usize], optset, start: starts[d[4] as usize], mtype, app_code };
+                if c.start == 4 && (d[2] % 4 != 0 || c.body_len > 3000) {
+                    rep.count("skipped-burst-start-state-thinned");
+                    return;
+                }
                 run_case("B-power-of-two-boundaries", i, n, &c, ctx, rep);
             },
         );
